@@ -129,6 +129,7 @@ def pack_stages(prop, tier, seed):
                 s2["vh_args"] = ["-props", "C19"]
             st.append(prep_stage("links", "links", "none", prop))
             st.append(corrupt_stage(prop, tier))
+            st += bundle_stages(prop, tier, seed)        # all manifest documents, generated field-wise and mutated
         if not q:
             st.append(pack_stage("rt", "rt", "none", prop, seed))
             st.append(pack_stage("ign1", "ignore", "single", prop, seed))
@@ -241,7 +242,10 @@ BUNDLE_JUDGE = {"module": "Judge_Bundle", "cfg": "Judge_Bundle.cfg"}
 
 def bundle_stages(prop, tier, seed):
     return [dict(name="manifests", module="Bundle", cfg="MC_Bundle.cfg", family="bundle", judge=BUNDLE_JUDGE, exhaustive=True,
-                 overrides={"MaxPkgs": "2" if tier == "quick" else "3"}, vh_args=["-props", prop], workers=2, timeout=3000)]
+                 overrides={"MaxPkgs": "2" if tier == "quick" else "3"}, vh_args=["-props", prop], workers=2, timeout=3000),
+            # direction B: valid manifest documents damaged by 1-3 byte edits / hostile string values / duplicated stretches
+            dict(kind="rec", name="mutatedmanifests", recorder="bundlerec", n=20000 if tier == "quick" else 300000,
+                 judge=dict(BUNDLE_JUDGE, timeout=3000))]
 
 
 PREP_JUDGE = {"module": "Judge_Prepare", "cfg": "Judge_Prepare.cfg"}
